@@ -139,3 +139,44 @@ VERIF_HARNESS(c18_strings) {
   if (env_alloc_failed >= 1 && p) VERIF_REACH("strings: a later allocation failed");
 #endif
 }
+
+/* ---- 5: a whole URI into an option list (Uri-Host, Uri-Port, Uri-Path, Uri-Query) ---------------------------------------------- */
+static int
+count_opt(coap_optlist_t *chain, uint16_t number) {
+  int n = 0, k;
+  coap_optlist_t *o;
+  for (o = chain, k = 0; o && k < 8; o = o->next, k++)
+    if (o->number == number) n++;
+  return n;
+}
+VERIF_HARNESS(c18_uri) {
+  static const uint8_t host[] = "Ab", path[] = "p", query[] = "q";
+  coap_uri_t uri;
+  coap_address_t dst;
+  coap_optlist_t *chain = NULL;
+  int r;
+  memset(&uri, 0, sizeof(uri));
+  memset(&dst, 0, sizeof(dst));
+  uri.scheme = COAP_URI_SCHEME_COAP;
+  uri.host.s = host; uri.host.length = 2;      /* differs from the printed destination address: Uri-Host is needed */
+  uri.port = 61616;                            /* not the default port: Uri-Port is needed */
+  uri.path.s = path; uri.path.length = 1;
+  uri.query.s = query; uri.query.length = 1;
+  env_alloc_fail_enabled = 1;
+  r = coap_uri_into_optlist(&uri, &dst, &chain, 1);
+  if (r) {
+    VERIF_ASSERT(count_opt(chain, COAP_OPTION_URI_HOST) == 1 && count_opt(chain, COAP_OPTION_URI_PORT) == 1 &&
+                 count_opt(chain, COAP_OPTION_URI_PATH) == 1 && count_opt(chain, COAP_OPTION_URI_QUERY) == 1,
+                 "uri: a conversion reported as successful holds every option of the URI (nothing silently dropped)");
+  }
+  if (env_alloc_failed) VERIF_ASSERT(!r, "uri: a failed allocation is reported by the return value");
+  else VERIF_ASSERT(r, "uri: without failures the conversion succeeds");
+  coap_delete_optlist(chain);
+  chain = NULL;
+  env_alloc_fail_enabled = 0;
+  VERIF_ASSERT(coap_uri_into_optlist(&uri, &dst, &chain, 1) == 1 && count_opt(chain, COAP_OPTION_URI_HOST) == 1, "uri: with memory available the conversion succeeds");
+  coap_delete_optlist(chain);
+#ifdef WITNESS
+  if (env_alloc_failed >= 1) VERIF_REACH("uri: an allocation failed");
+#endif
+}
